@@ -10,6 +10,7 @@ trees, empty operands, unequal k), every coin supply `coins`, and every object `
 Only property statements live here; helper lemmas are in DSProofs/Lemmas/Req*.lean.
 -/
 import DSProofs.Lemmas.ReqExact
+import DSProofs.Lemmas.ReqBound
 import DSGen.Req
 namespace DS.Req
 
@@ -124,6 +125,32 @@ theorem req_bookkeeping_exact {T : Tun} (hT : TunOK T) (F : SecFns ρ) (ops : Li
   obtain ⟨_, h2⟩ := req_input_refines hT F ops coins id s h
   refine ⟨h2.ret, h2.cap, h2.ne, h2.one, ?_⟩
   rw [h2.tw]; simp [totalW, weightP, cntP_true]
+
+/-- compression is not lazy in the current headers (`LAZY_COMPRESSION = false`), as `req_retained_bound` needs -/
+theorem req_genTun_nonlazy : genTun.lazy = false := by decide
+
+/-- retained_bound: after EVERY public operation `num_retained < max_nom_size` (the sum of the nominal capacities
+`MULTIPLIER · num_sections · section_size` of the compactors), and every compactor's section parameters are a point of the
+section-size schedule of the sketch's k.  Hypotheses: compression not lazy, and `SecOK`: the float schedule raw ↦ raw/√2 never
+shrinks the nominal capacity when the sections double (for the float code: checked by execution for every k the constructor can
+produce and the whole schedule, `dsmodel_req selftest`; the kernel cannot evaluate Float32). -/
+theorem req_retained_bound {T : Tun} (hT : TunOK T) (hlazy : T.lazy = false) (F : SecFns ρ) (hF : SecOK T F) (ops : List Op)
+    (coins : List Bool) (id : Nat) (s : Sketch ρ) (h : (run T F ops coins).1.get id = some s) :
+    s.numRetained < s.maxNomSize ∧ (∃ k0, s.k = effectiveK T k0) ∧
+    ∀ c ∈ s.compactors, ∃ j, c.ssRaw = iterN F.next j (F.ofNat s.k) ∧ c.sectionSize = F.ne c.ssRaw := by
+  have hb := runOps_BInv hT hlazy hF ops ([] : Store ρ) [] (Acc.init coins) trivial (fun _ _ hg => by simp [Store.get, AL.get] at hg)
+  have := hb id s h
+  exact ⟨this.lt, this.keff, this.sec⟩
+
+/-- non-vacuity of `SecOK`: an exact schedule that keeps the section size -/
+example : SecOK genTun (⟨id, id, id⟩ : SecFns Nat) := by
+  have hi : ∀ j (x : Nat), iterN (id : Nat → Nat) j x = x := by
+    intro j x; induction j with
+    | zero => rfl
+    | succ n ih => simp [iterN, ih]
+  constructor
+  · intro k0; rfl
+  · intro k0 j _; simp only [hi, id]; omega
 
 /-- levels_sorted: every compactor above level 0 is ascending (what `compact`'s `inplace_merge`, `compute_weight`'s binary search
 and the sorted view rely on), level 0 is ascending whenever its `sorted_` flag says so, and compactor `i` has `lg_weight = i` -/
